@@ -307,4 +307,4 @@ def stage(tier, seed, rng, stats, out):
         stats.count("collab-run:" + k2, v)
     for key, least in (("collab:receive:ok", 100), ("collab:send:ok", 100), ("collab-run:rebased", 100), ("collab-run:dropped", 3), ("collab-run:mirror", 20)):
         if stats.counts.get(key, 0) < least:
-            raise core.MachineryError(f"vacuity gate: {key}={stats.counts.get(key, 0)} < {least}")
+            core.vacuity(out, f"vacuity gate: {key}={stats.counts.get(key, 0)} < {least}")
